@@ -170,6 +170,7 @@ fn check_history(ctx: &mut Ctx, h: &History) -> Outcome {
                 o.class("ff-edge");
                 o.nontrivial = true;
             }
+            o.count("steps_compared_with_model", 1);
             let before = model.clone();
             let expect = model.apply(&entry);
             if expect.is_none() {
